@@ -196,6 +196,9 @@ impl Parser {
             parse_errors: parse_errors.clone(),
         }));
         let r = match prsr.start() {
+            // A tree produced by error recovery contains error nodes the visitor cannot walk;
+            // the collected syntax errors are reported below instead.
+            Ok(_) if !parse_errors.borrow().is_empty() => Ok(IdedExpr::default()),
             Ok(t) => Ok(self.visit(t.deref())),
             Err(e) => Err(ParseError {
                 source: Some(Box::new(e)),
@@ -370,8 +373,12 @@ impl<'a, T: Recognizer<'a>> ErrorListener<'a, T> for ParserErrorListener {
         _error: Option<&ANTLRError>,
     ) {
         match offending_symbol {
+            // The runtime reports leading whitespace as an "extraneous input" and recovers by
+            // skipping it; only that spurious report is dropped. Any other error at a
+            // whitespace token (e.g. an input with nothing but whitespace) is genuine.
             Some(offending_symbol)
-                if offending_symbol.get_token_type() == gen::cellexer::WHITESPACE => {}
+                if offending_symbol.get_token_type() == gen::cellexer::WHITESPACE
+                    && msg.starts_with("extraneous input") => {}
             _ => self.parse_errors.borrow_mut().push(ParseError {
                 source: None,
                 pos: (line, column + 1),
